@@ -299,6 +299,69 @@ Definition apply_text_layout (isb : bool) (text : list chr) (attrs : rle) (lines
   end.
 
 (* ------------------------------------------------------------------------------------ *)
+(* (2b) clipping a rendered row: util.py calc_trim_text / trim_text_attr_cs (attribute part),
+   rle_subseg, rle_prepend_modify, as used by TextCanvas.content(trim_left, cols) for every
+   partially shown canvas (CompositeCanvas.pad_trim_left_right, Overlay, Padding/Columns clip) *)
+
+(* one displayed character of a canvas row: bytes and columns (data) *)
+Record rchr := RC { r_len : Z; r_wid : Z }.
+
+(* str_util.calc_text_pos on a row from a character boundary: walk whole characters while the
+   next one still fits in pref_col ("if w + sc > pref_col: return i, sc") *)
+Fixpoint text_pos (cs : list rchr) (i sc pref : Z) : Z * Z :=
+  match cs with
+  | [] => (i, sc)
+  | c :: t => if pref <? r_wid c + sc then (i, sc) else text_pos t (i + r_len c) (sc + r_wid c) pref
+  end.
+
+(* the characters of the row from byte offset n on (n a character boundary) *)
+Fixpoint drop_bytes (cs : list rchr) (n : Z) : list rchr :=
+  match cs with
+  | [] => []
+  | c :: t => if n <=? 0 then cs else drop_bytes t (n - r_len c)
+  end.
+
+(* calc_trim_text(text, 0, len(text), start_col, end_col) -> (spos, epos, pad_left, pad_right) *)
+Definition calc_trim_text (cs : list rchr) (start_col end_col : Z) : Z * Z * Z * Z :=
+  let '(spos, pl) :=
+    if 0 <? start_col then
+      let '(sp, sc) := text_pos cs 0 0 start_col in
+      if sc <? start_col then (fst (text_pos cs 0 0 (start_col + 1)), 1) else (sp, 0)
+    else (0, 0) in
+  let run := end_col - start_col - pl in
+  let '(pos, sc) := text_pos (drop_bytes cs spos) spos 0 run in
+  (spos, pos, pl, if sc <? run then 1 else 0).
+
+(* rle_subseg(rle, start, end) *)
+Fixpoint rle_subseg_go (r : rle) (x start e : Z) : rle :=
+  match r with
+  | [] => []
+  | (a, rn) :: t =>
+      if negb (start =? 0) && (rn <=? start) then rle_subseg_go t (x + rn) (start - rn) e
+      else
+        let x1 := if negb (start =? 0) then x + start else x in
+        let rn1 := if negb (start =? 0) then rn - start else rn in
+        if e <=? x1 then []
+        else let rn2 := if e <? x1 + rn1 then e - x1 else rn1 in
+             (a, rn2) :: rle_subseg_go t (x1 + rn2) 0 e
+  end.
+Definition rle_subseg (r : rle) (start e : Z) : rle := rle_subseg_go r 0 start e.
+
+(* rle_prepend_modify *)
+Definition rle_prepend_modify (r : rle) (ar : run) : rle :=
+  match r with
+  | [] => [ar]
+  | (al, rn) :: t => if attr_eqb (fst ar) al then (fst ar, rn + snd ar) :: t else ar :: r
+  end.
+
+(* trim_text_attr_cs, the attribute list *)
+Definition trim_attr (cs : list rchr) (attrs : rle) (start_col end_col : Z) : rle :=
+  let '(spos, epos, pl, pr) := calc_trim_text cs start_col end_col in
+  let a0 := rle_subseg attrs spos epos in
+  let a1 := if negb (pl =? 0) then rle_prepend_modify a0 (rle_get_at attrs (spos - 1), 1) else a0 in
+  if negb (pr =? 0) then rle_append_modify a1 (rle_get_at attrs epos, 1) else a1.
+
+(* ------------------------------------------------------------------------------------ *)
 (* (3) attribute maps                                                                    *)
 
 Definition amap := list (attr * attr).      (* a dict in insertion order, keys unique *)
@@ -904,6 +967,40 @@ Definition run_palette (l : list Z) : list Z :=
   | _ => [-2]
   end.
 
+(* clips: nq (start_col end_col nchars (len wid)* nruns (attr run)* )* -> per query spos epos pl pr runs *)
+Fixpoint dec_rchars (n : nat) (l : list Z) : option (list rchr * list Z) :=
+  match n with
+  | O => Some ([], l)
+  | S k => match l with
+           | b :: w :: r => match dec_rchars k r with Some (cs, r) => Some (RC b w :: cs, r) | None => None end
+           | _ => None
+           end
+  end.
+Fixpoint run_clips (n : nat) (l : list Z) : list Z :=
+  match n with
+  | O => []
+  | S k =>
+    match l with
+    | sc :: ec :: nc :: r =>
+        match dec_rchars (Z.to_nat nc) r with
+        | Some (cs, na :: r) =>
+            match dec_runs (Z.to_nat na) r with
+            | Some (attrs, r) =>
+                let '(spos, epos, pl, pr) := calc_trim_text cs sc ec in
+                spos :: epos :: pl :: pr :: enc_rle (trim_attr cs attrs sc ec) ++ run_clips k r
+            | None => [-2]
+            end
+        | _ => [-2]
+        end
+    | _ => [-2]
+    end
+  end.
+Definition run_clip (l : list Z) : list Z :=
+  match l with
+  | nq :: r => 0 :: run_clips (Z.to_nat nq) r
+  | [] => [-2]
+  end.
+
 Definition run_case (l : list Z) : list Z :=
   match l with
   | 1 :: r => run_markup r
@@ -913,5 +1010,6 @@ Definition run_case (l : list Z) : list Z :=
   | 5 :: r => run_palette r
   | 6 :: r => run_decode r
   | 7 :: r => run_text r
+  | 8 :: r => run_clip r
   | _ => [-3]
   end.
